@@ -458,13 +458,17 @@ PROPERTIES["C10"] = {
         dict(name="c10_req_concurrent_send", module="verifkit.cfabmc.req_check",
              scenarios={"quick": [dict(tasks=2)], "thorough": [dict(tasks=2), dict(tasks=3)]},
              timeout_ms={"quick": 300000, "thorough": 1200000}),
+        dict(name="c10_rep_concurrent_recv", module="verifkit.cfabmc.rep_check",
+             scenarios={"quick": [dict(tasks=2)], "thorough": [dict(tasks=2), dict(tasks=3)]},
+             timeout_ms={"quick": 300000, "thorough": 1200000}),
     ],
-    "assumptions": MIRSYM_TRUST + ["the ReqSocket value is assembled by the driver field by field (core = opaque, ingress engine's deregister_pipe = no-op); the detach obligation is a bounded exhaustive execution with concrete peers",
+    "assumptions": MIRSYM_TRUST + ["REP: RepSocket assembled the same way; the state mutex, reads/writes of RepState and the awaited recv_complete_request (any of Ok((peer, payload)) / ConnectionClosed) are the visible operations; RCVTIMEO unset",
+                                   "the ReqSocket value is assembled by the driver field by field (core = opaque, ingress engine's deregister_pipe = no-op); the detach obligation is a bounded exhaustive execution with concrete peers",
                                    "cfa-bmc: the request-state mutex (lock / guard drop), reads and writes of ReqState and the connection's send_multipart().await (any of Ok / ConnectionClosed, no shared-state effect) are the visible operations; one connected peer; SNDTIMEO unset; SocketCore::is_running() = true"],
     "manifest": {
         "engine": "mirsym+cfabmc",
-        "technique": "interleaving BMC (z3, symbolic scheduler) over the CFA of ReqSocket::send extracted by executing its MIR, with the state mutex, state reads/writes and the awaited peer send as visible operations; plus execution of ReqSocket::pipe_detached's MIR over all bounded state x event combinations",
-        "text": "Two kernels of the property. (1) Racing senders: for 2 (thorough: 3) tasks calling send() concurrently on one REQ socket in state ReadyToSend, under every interleaving of their lock/unlock, state read/write and awaited peer-send steps and every outcome of the peer send: at most one call returns Ok; when all calls have returned the state is ExpectingReply exactly if one succeeded and ReadyToSend otherwise (a refused or failed send never leaves the socket unusable); the state mutex is released. (2) A peer-detach event changes the request state only when the detached peer holds the outstanding request (then the socket returns to ReadyToSend).",
+        "technique": "interleaving BMC (z3, symbolic scheduler) over the CFAs of ReqSocket::send and RepSocket::recv extracted by executing their MIR, with the state mutex, state reads/writes and the awaited peer send as visible operations; plus execution of ReqSocket::pipe_detached's MIR over all bounded state x event combinations",
+        "text": "Two kernels of the property. (1) Racing senders: for 2 (thorough: 3) tasks calling send() concurrently on one REQ socket in state ReadyToSend, under every interleaving of their lock/unlock, state read/write and awaited peer-send steps and every outcome of the peer send: at most one call returns Ok; when all calls have returned the state is ExpectingReply exactly if one succeeded and ReadyToSend otherwise (a refused or failed send never leaves the socket unusable); the state mutex is released. (2) A peer-detach event changes the request state only when the detached peer holds the outstanding request (then the socket returns to ReadyToSend). (3) Racing receivers on REP: for 2 (thorough: 3) tasks calling recv() concurrently in state ReadyToReceive, under every interleaving and every outcome of the awaited request, at most one call returns Ok (no request's PeerInfo is overwritten by a second one), mutexes released.",
         "design_ref": "DESIGN.md §5 (C10)",
         "note": "NOT claimed: recv() racing with send()/recv() (tokio::select! over the ingress engine and Notify), alternation over longer call histories, REP, reply routing, cancellation of the send future at its await (the guard's drop on the cancellation edge is not in the MIR dump).",
     },
@@ -558,7 +562,7 @@ PROPERTIES["C14"] = {
     "outside": "HWM bound, socket-level wrappers, addressed ingress, io_uring connection, timer accuracy",
 }
 
-HOOK_COMMITS = ["e6aec85", "b7f56e8", "904f401", "7ede9e5", "6da26bc", "f8dc301"]
+HOOK_COMMITS = ["e6aec85", "b7f56e8", "904f401", "7ede9e5", "6da26bc", "f8dc301", "ef592c1"]
 
 NOT_APPLICABLE = {
     "C15": "LINGER is a multi-actor shutdown protocol over tokio timers, mailboxes and kernel socket buffers; out of reach of solver-based checking of functions (DESIGN.md §5 C15)",
